@@ -6,7 +6,7 @@
    Vocabulary: Spec/Lines.v (lines, line_of_pos, line_start, col_of_pos) and
    Spec/TokSpans.v (tok_in_src, lex_inv, unexpected_byte, Forall_tokens_*, lit_tag_ok).
    Proofs: Proofs/LineCol.v, Proofs/LexSpan.v, Proofs/ParseSpan.v. *)
-From Coq Require Import ZArith List.
+From Coq Require Import ZArith List Lia.
 From JQ Require Import Base.Bytes Syntax.Token Gen.Generated Syntax.Lexer Syntax.Ast Syntax.Parser.
 From JQ Require Import Spec.Lines Spec.TokSpans Proofs.LineCol Proofs.LexSpan Proofs.ParseSpan.
 Open Scope nat_scope.
@@ -179,6 +179,27 @@ Proof.
   split; [unfold lex_inv; vm_compute; repeat split; repeat constructor|vm_compute; repeat split; reflexivity].
 Qed.
 
+(* ... and rendered, when the quote is followed on its line by another byte: the line of the
+   quote, one column to its right (inside the literal).  The two excluded situations are the
+   findings above: quote = last byte of the text (column 1), quote = last byte of a line
+   (following line, column -1). *)
+Theorem string_error_caret : forall src l p l' text n col,
+  lex_inv src l -> lex_next l = LexErr p l' -> lstart l' <> p ->
+  p < length src -> nth_error src p <> Some 10%N ->
+  get_line_col src p = (text, n, col) ->
+  n = S (line_of_pos src (lstart l')) /\
+  nth_error (lines src) (line_of_pos src (lstart l')) = Some text /\
+  col = (Z.of_nat (col_of_pos src (lstart l')) + 1)%Z /\
+  (1 <= col < Z.of_nat (length text))%Z /\
+  nth_error text (Z.to_nat col - 1) = nth_error src (lstart l') /\
+  exists q, (q = 39%N \/ q = 34%N) /\ nth_error src (lstart l') = Some q.
+Proof. exact string_error_caret_proof. Qed.
+Print Assumptions string_error_caret.
+
+Example string_error_caret_ex :      (* hypotheses as in lexer_error_in_string_ex *)
+  15 < length ex_str /\ nth_error ex_str 15 = Some 97%N /\ col_of_pos ex_str 14 = 6 /\ line_of_pos ex_str 14 = 1.
+Proof. split; [vm_compute; repeat constructor|vm_compute; repeat split; reflexivity]. Qed.
+
 (* 4c. unterminated regex (Lexer.Regex is called right after Lexer.Next returned the '/'
        token): the offset is that of the opening '/', no other '/' follows *)
 Theorem lexer_error_in_regex : forall src l0 t l p l',
@@ -198,6 +219,17 @@ Example lexer_error_in_regex_ex :
 Proof.
   split; [unfold lex_inv; vm_compute; repeat split; repeat constructor|vm_compute; repeat split; reflexivity].
 Qed.
+
+Theorem regex_error_caret : forall src l0 t l p l' text n col,
+  lex_inv src l0 -> lex_next l0 = LexTok t l -> ttag t = TDivide ->
+  lex_regex l = LexErr p l' ->
+  get_line_col src p = (text, n, col) ->
+  p = tpos t /\ n = S (line_of_pos src p) /\
+  nth_error (lines src) (line_of_pos src p) = Some text /\
+  col = Z.of_nat (col_of_pos src p) /\ (0 <= col < Z.of_nat (length text))%Z /\
+  nth_error text (Z.to_nat col) = Some 47%N.
+Proof. exact regex_error_caret_proof. Qed.
+Print Assumptions regex_error_caret.
 
 (* ------------------------------------------------------------------------------------ *)
 (* 5. Token spans.  Every token returned by Lexer.Next lies inside the text, GetString on it
@@ -223,6 +255,32 @@ Proof.
   split; [unfold lex_inv; vm_compute; repeat split; repeat constructor|].
   split; [unfold lex_inv; vm_compute; repeat split; repeat constructor|vm_compute; split; reflexivity].
 Qed.
+
+(* The text of a token: identifiers and numbers denote src[tokenStart:pos] (non-empty), a string
+   denotes the bytes strictly between its two equal quotes, every other token has Len = 0. *)
+Theorem lex_next_text : forall src l t l',
+  lex_inv src l -> lex_next l = LexTok t l' -> tok_text_ok src t l'.
+Proof. exact lex_next_text_proof. Qed.
+Print Assumptions lex_next_text.
+
+Example lex_next_text_ex :
+  tok_text_ok ex_src (mkTok TStr 16 2) (mkLexer (skipn 19 ex_src) 19 16) /\
+  tok_text_ok ex_src (mkTok TIdent 11 1) (mkLexer (skipn 12 ex_src) 12 11).
+Proof.
+  split; unfold tok_text_ok; cbn [ttag tpos tlen lpos].
+  - split; [reflexivity|split; [repeat constructor|]]. exists 34%N.
+    split; [now right|split; [reflexivity|split; [reflexivity|]]].
+    intros j Hj. assert (j = 16 \/ j = 17) as [->| ->] by lia; vm_compute; discriminate.
+  - split; [reflexivity|repeat constructor].
+Qed.
+
+(* Parser.advance skips newline tokens with fuel = unread bytes + 1; that is always enough
+   (the result is independent of the fuel), so its fuel-exhausted branch is dead code. *)
+Theorem next_non_newline_fuel : forall src fuel1 fuel2 l saw,
+  lex_inv src l -> length (lrest l) < fuel1 -> length (lrest l) < fuel2 ->
+  next_non_newline fuel1 l saw = next_non_newline fuel2 l saw.
+Proof. exact next_non_newline_fuel_proof. Qed.
+Print Assumptions next_non_newline_fuel.
 
 (* Every token stored in a parsed AST (including the synthesized tokens of compound
    assignment and the zero token of body-less rules) lies inside the text. *)
